@@ -60,7 +60,9 @@ def misplaced(ctx, ex):
         for arg, txt in (("ignore", "ignore"), ("reverse", "reverse"), ("key", "key = $.0"), ("by", "by = f")):
             for where, item in (("type", "#[%s(%s)] struct X { a: u8 }" % (a, txt)),
                                 ("enum", "#[%s(%s)] enum X { A { a: u8 } }" % (a, txt)),
-                                ("variant", "enum X { #[%s(%s)] A { a: u8 }, B }" % (a, txt))):
+                                ("variant", "enum X { #[%s(%s)] A { a: u8 }, B }" % (a, txt)),
+                                ("unit variant", "enum X { #[%s(%s)] A, B { a: u8 } }" % (a, txt)), ("empty tuple variant", "enum X { B(u8), #[%s(%s)] A() }" % (a, txt)),
+                                ("empty braced variant", "enum X { #[%s(%s)] A {} }" % (a, txt)), ("tuple struct", "#[%s(%s)] struct X(u8, u8);" % (a, txt)), ("unit struct", "#[%s(%s)] struct X;" % (a, txt))):
                 for entry in ("attr", "derive"):
                     r, has_item = B.expand(ex, entry, R.CMP_TRAITS, item)
                     n += 1
